@@ -169,6 +169,9 @@ pub struct Mat<T> {
     pub base: ArrayD<T>,
     pub shape: Vec<usize>,
     pub lay: Layout,
+    /// Some(stored shape): the logical array is constant along the axes where the stored length
+    /// is 1 and the logical length is larger; `view()` is then a broadcast view (zero strides)
+    pub stored: Option<Vec<usize>>,
 }
 
 impl<T: Clone> Mat<T> {
@@ -193,7 +196,19 @@ impl<T: Clone> Mat<T> {
             base,
             shape: shape.to_vec(),
             lay: lay.clone(),
+            stored: None,
         }
+    }
+
+    /// a logical array of shape `full` that repeats `reduced` (length 1 along the broadcast
+    /// axes) - stored once, viewed with zero strides
+    pub fn broadcast(reduced: &ArrayD<T>, full: &[usize], lay: &Layout, fill: impl Fn(u64) -> T) -> Self {
+        assert!(reduced.ndim() == full.len());
+        assert!(reduced.shape().iter().zip(full).all(|(r, f)| r == f || *r == 1));
+        let mut m = Self::new(reduced, lay, fill);
+        m.stored = Some(reduced.shape().to_vec());
+        m.shape = full.to_vec();
+        m
     }
 
     pub fn plain(logical: &ArrayD<T>) -> Self {
@@ -201,19 +216,36 @@ impl<T: Clone> Mat<T> {
             base: logical.as_standard_layout().into_owned(),
             shape: logical.shape().to_vec(),
             lay: Layout::c(logical.ndim()),
+            stored: None,
         }
     }
 
     pub fn view(&self) -> ArrayViewD<'_, T> {
-        self.lay.carve(self.base.view(), &self.shape)
+        match &self.stored {
+            None => self.lay.carve(self.base.view(), &self.shape),
+            Some(stored) => {
+                use ndarray::ShapeBuilder;
+                let v = self.lay.carve(self.base.view(), stored);
+                let strides: Vec<usize> = (0..stored.len())
+                    .map(|ax| if stored[ax] == 1 && self.shape[ax] != 1 { 0 } else { v.strides()[ax] as usize })
+                    .collect();
+                // SAFETY: the same elements as `v` (which borrows self.base), each repeated
+                // along the zero-stride axes; read-only
+                unsafe { ArrayViewD::from_shape_ptr(IxDyn(&self.shape).strides(IxDyn(&strides)), v.as_ptr()) }
+            }
+        }
     }
     pub fn view_mut(&mut self) -> ArrayViewMutD<'_, T> {
+        assert!(self.stored.is_none(), "broadcast arrays are read-only");
         let shape = self.shape.clone();
         self.lay.clone().carve(self.base.view_mut(), &shape)
     }
     /// owned array with the same strides / offset as the view (keeps the whole allocation)
     pub fn owned(&self) -> ArrayD<T> {
-        self.lay.carve(self.base.clone(), &self.shape)
+        match &self.stored {
+            None => self.lay.carve(self.base.clone(), &self.shape),
+            Some(_) => self.view().to_owned(),
+        }
     }
 }
 
